@@ -10,6 +10,9 @@ checks, na = [], []
 for p in props:
     pid = p["id"]
     c = registry.CHECKS.get(pid)
+    if pid in getattr(registry, "SUSPENDED", {}):
+        na.append({"property_id": pid, "reason": registry.SUSPENDED[pid]})
+        continue
     if c is None:
         na.append({"property_id": pid, "reason": registry.NOT_APPLICABLE.get(pid, "check not built yet (work in progress)")})
         continue
